@@ -14,8 +14,8 @@ Binding A (no hooks, /repo untouched): the names np / optimize / special inside 
 pointed at forwarding proxies for the duration of a fit (vlib/student_obs.py); each observed fit is shown to be
 bit-identical to the unobserved one.  Floats become tags: equal <=> equal after applying g up to
     mu0, Sigma0:   64 * eps * K                                   (worst observed 1.9 eps K)
-    delta, mu:     1e-8 + 3e4 * eps * K * max(1, nu_max)          (worst observed 3% of it)
-    nu, Sigma:     1e-9 + 3e3 * eps * K * max(1, nu_max)          (worst observed 2% of it)
+    delta, mu:     1e-8 + 1e5 * eps * K * max(1, nu_max)          (worst observed 4% of it)
+    nu, Sigma:     1e-9 + 1e4 * eps * K * max(1, nu_max)          (worst observed 2% of it)
 errors measured relative to sqrt(Sigma_jj) (mu), sqrt(Sigma_ii Sigma_jj) (Sigma), delta+1 (delta), nu*max(1,nu) (nu).
 K = (max_j max|x_j|/sd_j) * cond(correlation) of the worse-conditioned of X and g(X): the number of roundings of the
 data's REPRESENTATION that one unit of its standardised shape is worth; the floors are the absolute termination tolerance
@@ -261,11 +261,10 @@ def main():
     ks = [-1] + list(range(n_data))
     pending = {k: [(s, 0) for s in range(nslots)] for k in ks}
     first = True
-    all_meta, all_fail_meta = [], []
     states = generated = 0
     coverage = {}
     n_pairs = n_modes = n_degen = 0
-    inconclusive = 0
+    still_tied = 0
     tie_cases = set()
     known_hits = []
     worst = {k: 0.0 for k in ("mu0", "S0", "delta", "nu", "mu", "S")}
@@ -375,9 +374,10 @@ def main():
                 if m["attempt"] < REDRAWS:
                     nxt.setdefault(m["k"], []).append((m["slot"], m["attempt"] + 1))
                 else:
-                    inconclusive += 1
+                    still_tied += 1
             elif pid in tie_pids:
-                inconclusive += 1
+                tie_cases.add((m["k"], m.get("slot"), m.get("via")))
+                still_tied += 1
         pending = nxt
         first = False
         round_no += 1
@@ -402,9 +402,7 @@ def main():
                      f"relative margin of the leading coefficient {m['diag']['marginsA'][:1]}",
                      {"seed": ck.seed, "k": m["k"], "slot": m.get("slot"), "attempt": m.get("attempt", 0), "nslots": nslots, "what": "pair", "meta": m})
 
-    rejected = total = None
-    if ck.args.selftest or ck.tier == "thorough":
-        rejected, total = selftest(ck, st_items, st_metas)
+    rejected, total = selftest(ck, st_items, st_metas)  # binding self-test: 13 single-field corruptions of an accepted pair must be rejected
 
     # non-vacuity
     need = ["Initialise", "IterateReturnInf", "Finish", "Modes", "Degenerate"]
@@ -439,14 +437,17 @@ def main():
         "iterations_histogram": {str(k): v for k, v in sorted(iter_hist.items())},
         "classes": classes, "dimensions": {str(k): v for k, v in sorted(dims.items())}, "map_kinds": kinds_seen,
         "permutations_d_le_3_covered": sorted([list(p) for p in perms_seen], key=repr),
-        "near_tie_cases_redrawn": len(tie_cases), "inconclusive_near_ties": inconclusive,
-        "tolerance": {"init (mu0, Sigma0)": "64*eps*K", "delta, mu": "1e-8 + 3e4*eps*K*max(1,nu_max)", "nu, Sigma": "1e-9 + 3e3*eps*K*max(1,nu_max)",
+        "inconclusive_near_ties": len(tie_cases), "near_ties_still_tied_after_2_redraws": still_tied,
+        "near_tie_rule": "a discrete decision (OptNu branch, loop test) differs between the two runs while the deciding quantity is inside the pair's "
+                         "rounding band of its threshold: TLC prints TIE, coupling clauses after that step are not evaluated (single-run clauses still are), "
+                         "the case is re-drawn with another map (up to 2 times) and counted here; never a violation",
+        "tolerance": {"init (mu0, Sigma0)": "64*eps*K", "delta, mu": "1e-8 + 1e5*eps*K*max(1,nu_max)", "nu, Sigma": "1e-9 + 1e4*eps*K*max(1,nu_max)",
                       "K": "max over X, g(X) of (max_j max|x_j|/sd_j) * cond(correlation matrix)", "translation_budget_target": so.TOL_TARGET,
                       "delta_mu_tol_quantiles": {"p50": q(0.5), "p90": q(0.9), "p99": q(0.99), "max": tols[-1] if tols else None}},
         "worst_observed_error": worst,
         "worst_observed_error_as_fraction_of_tolerance": worst_norm,
         "degenerate_outcomes_information_only": degen_outcomes,
-        "binding_mutations_rejected": None if rejected is None else f"{rejected}/{total}",
+        "binding_mutations_rejected": f"{rejected}/{total}",
         "not_claimed": "recovery of generating parameters from large t-samples (ensemble statistics)",
     })
 
